@@ -27,8 +27,8 @@ theorem map_ofToken_toToken (ts : List PTok) : (ts.map PTok.toToken).map PTok.of
   | cons a as ih => simp [ofToken_toToken, ih]
 
 theorem parse_of_parseToks {ts : List PTok} {t : Ast} (h : parseToks ts = .ok t) :
-    parse (ts.map PTok.toToken) = .ok t := by
-  unfold parse; rw [map_ofToken_toToken, h]
+    parse (toTokens ts) = .ok t := by
+  unfold parse toTokens; rw [map_ofToken_toToken, h]
 
 /-! ### levels -/
 
@@ -1018,6 +1018,301 @@ theorem all_call (name : String) {args : List Ast} {kws : List (String × Ast)}
     exact pCall_ok full n name args kws rest hargs hkws (by omega) (by omega)
   · intro full rest; simp [rNat, headU, headP]
 
+/-! ### strings, instants, intervals, arrays, comprehensions -/
+
+theorem all_str (v : String) : All (.str v) := by
+  apply all_of_native (by simp [level_str])
+  · intro full n rest _ _ _
+    simp [level_str, pL, rNat_str, pTerm]
+  · intro full rest; rw [level_str]; constructor <;> intro h <;> omega
+
+theorem all_inst (v : String) : All (.inst v) := by
+  apply all_of_native (by simp [level_inst])
+  · intro full n rest _ _ _
+    simp [level_inst, pL, rNat_inst, pTerm]
+  · intro full rest; rw [level_inst]; constructor <;> intro h <;> omega
+
+theorem rNat_interval (full : Bool) (lo hi : Ast) :
+    rNat full (.interval lo hi)
+      = .p .lbrack :: (rAt full 0 lo ++ .p .comma :: (rAt full 0 hi ++ [.p .rbrack])) := by
+  simp [rNat, rAt_zero]
+
+theorem all_interval {lo hi : Ast} (alo : All lo) (ahi : All hi) : All (.interval lo hi) := by
+  apply all_of_native (by simp [level_interval])
+  · intro full n rest hn _ _
+    rw [rNat_interval] at hn ⊢
+    simp only [List.length_cons, List.length_append, List.length_nil] at hn
+    have h1 := rec_ok alo full n (.p .comma :: (rAt full 0 hi ++ .p .rbrack :: rest)) (by omega) rfl
+    have h2 := rec_ok ahi full n (.p .rbrack :: rest) (by omega) rfl
+    simp only [level_interval, pL, List.cons_append, List.append_assoc, List.nil_append, pTerm, pInterval, h1,
+      expect_same, h2]
+  · intro full rest; rw [level_interval]; constructor <;> intro h <;> omega
+
+/-- what may follow an element / clause inside braces -/
+def braceEnd : List PTok → Bool
+  | .p .comma :: _ => true
+  | .p .rbrace :: _ => true
+  | _ => false
+
+theorem stop_of_braceEnd {r : List PTok} (h : braceEnd r = true) : stop 0 r = true := by
+  tok_cases r with braceEnd, stop
+
+theorem colon_of_braceEnd {r : List PTok} (h : braceEnd r = true) : nextIsP .colon r = false := by
+  tok_cases r with braceEnd, nextIsP
+
+theorem braceEnd_rTail (full : Bool) (xs : List Ast) (rest : List PTok) :
+    braceEnd (rTail full xs ++ .p .rbrace :: rest) = true := by
+  cases xs with
+  | nil => simp [rTail, braceEnd]
+  | cons x xs => simp [rTail_cons, braceEnd]
+
+theorem pElems_end (rec : List PTok → Res Ast) (F : Nat) (r : List PTok) :
+    pElems rec F (.p .rbrace :: r) = .ok ([], .p .rbrace :: r) := by
+  rw [pElems.eq_def]; simp [nextIsP]
+
+theorem pElems_step {rec : List PTok → Res Ast} {t1 t2 : List PTok} {a : Ast} (k : Nat)
+    (h : rec t1 = .ok (a, t2)) :
+    pElems rec (k + 1) (.p .comma :: t1) =
+      match pElems rec k t2 with
+      | .error e => .error e
+      | .ok (xs, r2) => .ok (a :: xs, r2) := by
+  rw [pElems.eq_def]; simp [nextIsP, h]; try rfl
+
+theorem elems_ok (full : Bool) (n : Nat) (rest : List PTok) :
+    ∀ (xs : List Ast) (F : Nat), (rTail full xs).length ≤ F → (∀ a ∈ xs, All a) →
+      (rTail full xs).length ≤ n →
+      pElems (pExpr n) F (rTail full xs ++ .p .rbrace :: rest) = .ok (xs, .p .rbrace :: rest) := by
+  intro xs
+  induction xs with
+  | nil => intro F _ _ _; simp only [rTail, List.nil_append]; exact pElems_end _ _ _
+  | cons a as ih =>
+    intro F hF hall hn
+    rw [rTail_cons] at hF hn ⊢
+    simp only [List.length_cons, List.length_append] at hF hn
+    obtain ⟨k, rfl⟩ : ∃ k, F = k + 1 := ⟨F - 1, by omega⟩
+    have hrec := rec_ok (hall a (by simp)) full n (rTail full as ++ .p .rbrace :: rest) (by omega)
+      (stop_of_braceEnd (braceEnd_rTail full as rest))
+    simp only [List.cons_append, List.append_assoc]
+    rw [pElems_step k hrec, ih k (by omega) (fun b hb => hall b (by simp [hb])) (by omega)]
+
+theorem not_rbrace_of_start {toks : List PTok} (h : exprStart toks = true) : nextIsP .rbrace toks = false := by
+  tok_cases toks with exprStart, nextIsP
+
+theorem all_array {xs : List Ast} (hall : ∀ a ∈ xs, All a) : All (.array xs) := by
+  apply all_of_native (by simp [level_array])
+  · intro full n rest hn _ _
+    have hr : rNat full (.array xs) = .p .lbrace :: ((rTail full xs).drop 1 ++ [.p .rbrace]) := by simp [rNat]
+    rw [hr] at hn ⊢
+    simp only [List.length_cons, List.length_append, List.length_drop, List.length_nil] at hn
+    simp only [level_array, pL, List.cons_append, List.append_assoc, List.nil_append, pTerm]
+    cases xs with
+    | nil => simp [rTail, pArray, nextIsP]
+    | cons a as =>
+      rw [rTail_cons] at hn ⊢
+      simp only [List.length_cons, List.length_append] at hn
+      simp only [List.drop_succ_cons, List.drop_zero, List.append_assoc]
+      have hbe := braceEnd_rTail full as rest
+      have hrec := rec_ok (hall a (by simp)) full n (rTail full as ++ .p .rbrace :: rest) (by omega)
+        (stop_of_braceEnd hbe)
+      simp only [pArray, not_rbrace_of_start (pExpr_head hrec), hrec, colon_of_braceEnd hbe,
+        Bool.false_eq_true, if_false]
+      rw [elems_ok full n rest as _ (by simp only [List.length_append, List.length_cons]; omega)
+        (fun b hb => hall b (by simp [hb])) (by omega)]
+      simp only [expect_same]
+  · intro full rest; rw [level_array]; constructor <;> intro h <;> omega
+
+/-- text of a condition clause -/
+def condText (full : Bool) (c : Ast) : List PTok :=
+  wrap (!full && !startsGen (rNat full c)) (rNat full c)
+
+/-- `, clause` for every clause -/
+def clTail (full : Bool) : List Clause → List PTok
+  | [] => []
+  | .gen n e :: cs => .p .comma :: .var n :: .cmp .elem :: (rAt full 0 e ++ clTail full cs)
+  | .cond c :: cs => .p .comma :: (condText full c ++ clTail full cs)
+
+def mkClauses (gens : List (String × Ast)) (conds : List Ast) : List Clause :=
+  gens.map (fun p => Clause.gen p.1 p.2) ++ conds.map Clause.cond
+
+theorem clTail_conds (full : Bool) (conds : List Ast) :
+    rCondTail full conds = clTail full (conds.map Clause.cond) := by
+  induction conds with
+  | nil => rfl
+  | cons c cs ih => simp [rCondTail, clTail, condText, ih]
+
+theorem clTail_mk (full : Bool) (gens : List (String × Ast)) (conds : List Ast) :
+    rGenTail full gens ++ rCondTail full conds = clTail full (mkClauses gens conds) := by
+  induction gens with
+  | nil => simpa [rGenTail, mkClauses] using clTail_conds full conds
+  | cons g gs ih =>
+    obtain ⟨n, e⟩ := g
+    simp only [mkClauses] at ih
+    simp [rGenTail, mkClauses, clTail, rAt_zero, ih]
+
+theorem clauseGens_mk (gens : List (String × Ast)) (conds : List Ast) :
+    clauseGens (mkClauses gens conds) = gens := by
+  induction gens with
+  | nil =>
+    simp only [mkClauses, List.map_nil, List.nil_append]
+    induction conds with
+    | nil => rfl
+    | cons c cs ih => simpa [clauseGens] using ih
+  | cons g gs ih => obtain ⟨n, e⟩ := g; simp only [mkClauses] at ih; simp [mkClauses, clauseGens, ih]
+
+theorem clauseConds_mk (gens : List (String × Ast)) (conds : List Ast) :
+    clauseConds (mkClauses gens conds) = conds := by
+  induction gens with
+  | nil =>
+    simp only [mkClauses, List.map_nil, List.nil_append]
+    induction conds with
+    | nil => rfl
+    | cons c cs ih => simpa [clauseConds] using ih
+  | cons g gs ih => obtain ⟨n, e⟩ := g; simp only [mkClauses] at ih; simp [mkClauses, clauseConds, ih]
+
+def ClAll : Clause → Prop
+  | .gen _ e => All e
+  | .cond c => All c
+
+theorem startsGen_append {ts rest : List PTok} (h : startsGen ts = false) (hr : braceEnd rest = true) :
+    startsGen (ts ++ rest) = false := by
+  match ts, h with
+  | [], _ => tok_cases rest with braceEnd, startsGen
+  | [a], _ =>
+    cases a <;> simp [startsGen]
+    tok_cases rest with braceEnd, startsGen
+  | a :: b :: tl, h =>
+    cases a <;> try (simp [startsGen]; done)
+    cases b <;> try (simp [startsGen]; done)
+    rename_i c; cases c <;> simp_all [startsGen]
+
+theorem pClause_fall (rec : List PTok → Res Ast) {toks : List PTok} (h : startsGen toks = false) :
+    pClause rec toks =
+      match rec toks with
+      | .error e => .error e
+      | .ok (a, r2) => .ok (.cond a, r2) := by
+  unfold pClause
+  split
+  · simp [startsGen] at h
+  · rfl
+
+theorem braceEnd_clTail (full : Bool) (cs : List Clause) (rest : List PTok) :
+    braceEnd (clTail full cs ++ .p .rbrace :: rest) = true := by
+  cases cs with
+  | nil => simp [clTail, braceEnd]
+  | cons c cs => cases c <;> simp [clTail, braceEnd]
+
+theorem cond_ok {c : Ast} (ac : All c) (full : Bool) (n : Nat) (more : List PTok)
+    (hn : (condText full c).length + 1 ≤ n) (hm : braceEnd more = true) :
+    pClause (pExpr n) (condText full c ++ more) = .ok (.cond c, more) := by
+  obtain ⟨m, rfl⟩ : ∃ m, n = m + 1 := ⟨n - 1, by omega⟩
+  unfold condText at hn ⊢
+  by_cases hb : (!full && !startsGen (rNat full c)) = true
+  · simp only [hb, wrap, if_true] at hn ⊢
+    simp at hb
+    rw [pClause_fall _ (startsGen_append hb.2 hm)]
+    have h := ac.nat full 0 (Nat.zero_le _) m more (by omega) (stop_of_braceEnd hm)
+      (fun _ => stop_pow (stop_of_braceEnd hm) (by omega))
+    simp only [pL] at h
+    simp only [pExpr, h]
+  · rw [Bool.eq_false_iff.mpr hb] at hn ⊢
+    simp only [wrap, Bool.false_eq_true, if_false, paren_length] at hn ⊢
+    rw [pClause_fall _ (by simp [paren_append, startsGen])]
+    have h := par_of_nat (ac.nat full 0 (Nat.zero_le _)) 0 (by omega) m more (by omega) (stop_of_braceEnd hm)
+    simp only [pL] at h
+    simp only [pExpr, h]
+
+theorem gen_ok {e : Ast} (ae : All e) (full : Bool) (n : Nat) (name : String) (more : List PTok)
+    (hn : (rAt full 0 e).length + 1 ≤ n) (hm : braceEnd more = true) :
+    pClause (pExpr n) (.var name :: .cmp .elem :: (rAt full 0 e ++ more)) = .ok (.gen name e, more) := by
+  simp only [pClause, rec_ok ae full n more hn (stop_of_braceEnd hm)]
+
+/-- text of one clause -/
+def clText (full : Bool) : Clause → List PTok
+  | .gen n e => .var n :: .cmp .elem :: rAt full 0 e
+  | .cond c => condText full c
+
+theorem clTail_cons (full : Bool) (c : Clause) (cs : List Clause) :
+    clTail full (c :: cs) = .p .comma :: (clText full c ++ clTail full cs) := by
+  cases c <;> simp [clTail, clText]
+
+theorem clause_ok {c : Clause} (hc : ClAll c) (full : Bool) (n : Nat) (more : List PTok)
+    (hn : (clText full c).length + 1 ≤ n) (hm : braceEnd more = true) :
+    pClause (pExpr n) (clText full c ++ more) = .ok (c, more) := by
+  cases c with
+  | gen name e =>
+    simp only [clText, List.length_cons] at hn
+    simpa [clText] using gen_ok hc full n name more (by omega) hm
+  | cond x => exact cond_ok hc full n more hn hm
+
+theorem pClauses_end (rec : List PTok → Res Ast) (F : Nat) (r : List PTok) :
+    pClauses rec F (.p .rbrace :: r) = .ok ([], .p .rbrace :: r) := by
+  rw [pClauses.eq_def]; simp [nextIsP]
+
+theorem pClauses_step {rec : List PTok → Res Ast} {t1 t2 : List PTok} {c : Clause} (k : Nat)
+    (h : pClause rec t1 = .ok (c, t2)) :
+    pClauses rec (k + 1) (.p .comma :: t1) =
+      match pClauses rec k t2 with
+      | .error e => .error e
+      | .ok (xs, r2) => .ok (c :: xs, r2) := by
+  rw [pClauses.eq_def]; simp [nextIsP, h]; try rfl
+
+theorem clauses_ok (full : Bool) (n : Nat) (rest : List PTok) :
+    ∀ (cs : List Clause) (F : Nat), (clTail full cs).length ≤ F → (∀ c ∈ cs, ClAll c) →
+      (clTail full cs).length ≤ n →
+      pClauses (pExpr n) F (clTail full cs ++ .p .rbrace :: rest) = .ok (cs, .p .rbrace :: rest) := by
+  intro cs
+  induction cs with
+  | nil => intro F _ _ _; simp only [clTail, List.nil_append]; exact pClauses_end _ _ _
+  | cons c cs ih =>
+    intro F hF hall hn
+    rw [clTail_cons] at hF hn ⊢
+    simp only [List.length_cons, List.length_append] at hF hn
+    obtain ⟨k, rfl⟩ : ∃ k, F = k + 1 := ⟨F - 1, by omega⟩
+    have hrec := clause_ok (hall c (by simp)) full n (clTail full cs ++ .p .rbrace :: rest) (by omega)
+      (braceEnd_clTail full cs rest)
+    simp only [List.cons_append, List.append_assoc]
+    rw [pClauses_step k hrec, ih k (by omega) (fun b hb => hall b (by simp [hb])) (by omega)]
+
+theorem nextIsP_same (s : Punct) (r : List PTok) : nextIsP s (.p s :: r) = true := by
+  simp [nextIsP]
+
+theorem all_compr {body : Ast} {gens : List (String × Ast)} {conds : List Ast} (ab : All body)
+    (hg : ∀ p ∈ gens, All p.2) (hc : ∀ c ∈ conds, All c) (hne : (gens.isEmpty && conds.isEmpty) = false) :
+    All (.compr body gens conds) := by
+  apply all_of_native (by simp [level_compr])
+  · intro full n rest hn _ _
+    have hr : rNat full (.compr body gens conds)
+        = .p .lbrace :: (rAt full 0 body ++ .p .colon :: ((clTail full (mkClauses gens conds)).drop 1 ++ [.p .rbrace])) := by
+      simp [rNat, rAt_zero, clTail_mk]
+    rw [hr] at hn ⊢
+    have hcl : ∀ c ∈ mkClauses gens conds, ClAll c := by
+      intro c hc'
+      simp only [mkClauses, List.mem_append, List.mem_map] at hc'
+      rcases hc' with ⟨p, hp, rfl⟩ | ⟨x, hx, rfl⟩
+      · exact hg p hp
+      · exact hc x hx
+    have hmk1 := clauseGens_mk gens conds
+    have hmk2 := clauseConds_mk gens conds
+    cases hcs : mkClauses gens conds with
+    | nil =>
+      cases gens <;> cases conds <;> simp_all [mkClauses]
+    | cons c cs =>
+      rw [hcs] at hn hcl hmk1 hmk2
+      rw [clTail_cons] at hn ⊢
+      simp only [List.length_cons, List.length_append, List.drop_succ_cons, List.drop_zero, List.length_nil] at hn
+      simp only [level_compr, pL, List.cons_append, List.append_assoc, List.nil_append, pTerm,
+        List.drop_succ_cons, List.drop_zero]
+      have hrec := rec_ok ab full n (.p .colon :: (clText full c ++ (clTail full cs ++ .p .rbrace :: rest)))
+        (by omega) rfl
+      have hc1 := clause_ok (hcl c (by simp)) full n (clTail full cs ++ .p .rbrace :: rest) (by omega)
+        (braceEnd_clTail full cs rest)
+      simp only [pArray, not_rbrace_of_start (pExpr_head hrec), hrec, nextIsP_same, if_true,
+        Bool.false_eq_true, if_false, List.drop_succ_cons, List.drop_zero, hc1]
+      rw [clauses_ok full n rest cs _ (by simp only [List.length_append, List.length_cons]; omega)
+        (fun b hb => hcl b (by simp [hb])) (by omega)]
+      simp only [expect_same, mkCompr, hmk1, hmk2]
+  · intro full rest; rw [level_compr]; constructor <;> intro h <;> omega
+
 /-! ### statements -/
 
 /-- text of one statement -/
@@ -1130,32 +1425,7 @@ theorem stmts_ok (full : Bool) (N : Nat) : ∀ (xs : List Ast) (s : Ast) (k : Na
       rw [htoks] at hst
       simp only [pStatements, hst, expect_same, hrec]
 
-/-! ### the fragment covered so far, and the induction over trees -/
-
-mutual
-/-- Constructors for which the round trip is proved (stages 1 and 2: numbers, variables,
-    parentheses, `!`, sign, `^`, `* / %`, `+ - ±`, comparisons, quantities / unit signatures, `..`,
-    `to`, function calls with positional and keyword arguments; at statement level also assignment).
-    Not yet covered: strings, instants, arrays, comprehensions, interval literals. -/
-def inFrag : Ast → Bool
-  | .num _ | .var _ => true
-  | .bin _ l r => inFrag l && inFrag r
-  | .sign _ x => inFrag x
-  | .fact x => inFrag x
-  | .cmp1 _ a b => inFrag a && inFrag b
-  | .cmp2 _ _ a b c => inFrag a && inFrag b && inFrag c
-  | .range lo hi => inFrag lo && inFrag hi
-  | .quantity x _ => inFrag x
-  | .convert e _ => inFrag e
-  | .call _ args kws => inFrags args && inFragKs kws
-  | .str _ | .inst _ | .interval .. | .array _ | .compr .. | .assign .. | .stmts _ => false
-def inFrags : List Ast → Bool
-  | [] => true
-  | x :: xs => inFrag x && inFrags xs
-def inFragKs : List (String × Ast) → Bool
-  | [] => true
-  | (_, x) :: xs => inFrag x && inFragKs xs
-end
+/-! ### the induction over trees -/
 
 theorem wfEs_mem {as : List Ast} (h : wfEs as = true) {a : Ast} (ha : a ∈ as) : wfE a = true := by
   induction as with
@@ -1177,109 +1447,95 @@ theorem wfKs_mem {ps : List (String × Ast)} (h : wfKs ps = true) {p : String ×
     · exact h.1
     · exact ih h.2 h'
 
-theorem inFrags_mem {as : List Ast} (h : inFrags as = true) {a : Ast} (ha : a ∈ as) : inFrag a = true := by
-  induction as with
-  | nil => cases ha
-  | cons b bs ih =>
-    simp only [inFrags, Bool.and_eq_true] at h
-    rcases List.mem_cons.mp ha with rfl | h'
-    · exact h.1
-    · exact ih h.2 h'
-
-theorem inFragKs_mem {ps : List (String × Ast)} (h : inFragKs ps = true) {p : String × Ast} (hp : p ∈ ps) :
-    inFrag p.2 = true := by
-  induction ps with
-  | nil => cases hp
-  | cons b bs ih =>
-    obtain ⟨k, v⟩ := b
-    simp only [inFragKs, Bool.and_eq_true] at h
-    rcases List.mem_cons.mp hp with rfl | h'
-    · exact h.1
-    · exact ih h.2 h'
-
-theorem all_of_size : ∀ (k : Nat) (t : Ast), sizeOf t ≤ k → wfE t = true → inFrag t = true → All t := by
+theorem all_of_size : ∀ (k : Nat) (t : Ast), sizeOf t ≤ k → wfE t = true → All t := by
   intro k
   induction k with
   | zero => intro t h; cases t <;> simp at h <;> omega
   | succ k ih =>
-    intro t hsz hwf hfr
+    intro t hsz hwf
     cases t with
     | num v => exact all_num v (by simpa [wfE] using hwf)
     | var s => exact all_var s
+    | str s => exact all_str s
+    | inst s => exact all_inst s
     | bin o l r =>
-      simp only [wfE, inFrag, Bool.and_eq_true] at hwf hfr
+      simp only [wfE, Bool.and_eq_true] at hwf
       simp only [Ast.bin.sizeOf_spec] at hsz
-      exact all_bin (ih l (by omega) hwf.1 hfr.1) (ih r (by omega) hwf.2 hfr.2)
+      exact all_bin (ih l (by omega) hwf.1) (ih r (by omega) hwf.2)
     | sign neg x =>
-      simp only [wfE, inFrag] at hwf hfr
+      simp only [wfE] at hwf
       simp only [Ast.sign.sizeOf_spec] at hsz
-      exact all_sign neg (ih x (by omega) hwf hfr)
+      exact all_sign neg (ih x (by omega) hwf)
     | fact x =>
-      simp only [wfE, inFrag] at hwf hfr
+      simp only [wfE] at hwf
       simp only [Ast.fact.sizeOf_spec] at hsz
-      exact all_fact (ih x (by omega) hwf hfr)
+      exact all_fact (ih x (by omega) hwf)
     | cmp1 o a b =>
-      simp only [wfE, inFrag, Bool.and_eq_true] at hwf hfr
+      simp only [wfE, Bool.and_eq_true] at hwf
       simp only [Ast.cmp1.sizeOf_spec] at hsz
-      exact all_cmp1 hwf.1.1 (ih a (by omega) hwf.1.2 hfr.1) (ih b (by omega) hwf.2 hfr.2)
+      exact all_cmp1 hwf.1.1 (ih a (by omega) hwf.1.2) (ih b (by omega) hwf.2)
     | cmp2 o1 o2 a b c =>
-      simp only [wfE, inFrag, Bool.and_eq_true] at hwf hfr
+      simp only [wfE, Bool.and_eq_true] at hwf
       simp only [Ast.cmp2.sizeOf_spec] at hsz
-      exact all_cmp2 hwf.1.1.1 (ih a (by omega) hwf.1.1.2 hfr.1.1) (ih b (by omega) hwf.1.2 hfr.1.2)
-        (ih c (by omega) hwf.2 hfr.2)
+      exact all_cmp2 hwf.1.1.1 (ih a (by omega) hwf.1.1.2) (ih b (by omega) hwf.1.2) (ih c (by omega) hwf.2)
     | range lo hi =>
-      simp only [wfE, inFrag, Bool.and_eq_true] at hwf hfr
+      simp only [wfE, Bool.and_eq_true] at hwf
       simp only [Ast.range.sizeOf_spec] at hsz
-      exact all_range (ih lo (by omega) hwf.1 hfr.1) (ih hi (by omega) hwf.2 hfr.2)
+      exact all_range (ih lo (by omega) hwf.1) (ih hi (by omega) hwf.2)
+    | interval lo hi =>
+      simp only [wfE, Bool.and_eq_true] at hwf
+      simp only [Ast.interval.sizeOf_spec] at hsz
+      exact all_interval (ih lo (by omega) hwf.1) (ih hi (by omega) hwf.2)
     | quantity x s =>
-      simp only [wfE, inFrag, Bool.and_eq_true] at hwf hfr
+      simp only [wfE, Bool.and_eq_true] at hwf
       simp only [Ast.quantity.sizeOf_spec] at hsz
-      exact all_quantity s hwf.2 (ih x (by omega) hwf.1 hfr)
+      exact all_quantity s hwf.2 (ih x (by omega) hwf.1)
     | convert e s =>
-      simp only [wfE, inFrag, Bool.and_eq_true] at hwf hfr
+      simp only [wfE, Bool.and_eq_true] at hwf
       simp only [Ast.convert.sizeOf_spec] at hsz
-      exact all_convert s hwf.2 (ih e (by omega) hwf.1 hfr)
+      exact all_convert s hwf.2 (ih e (by omega) hwf.1)
     | call name args kws =>
-      simp only [wfE, inFrag, Bool.and_eq_true] at hwf hfr
+      simp only [wfE, Bool.and_eq_true] at hwf
       simp only [Ast.call.sizeOf_spec] at hsz
       apply all_call name
       · intro a ha
         have := mem_sizeOf_lt ha
-        exact ih a (by omega) (wfEs_mem hwf.1 ha) (inFrags_mem hfr.1 ha)
+        exact ih a (by omega) (wfEs_mem hwf.1 ha)
       · intro p hp
         have := mem_kw_sizeOf_lt hp
-        exact ih p.2 (by omega) (wfKs_mem hwf.2 hp) (inFragKs_mem hfr.2 hp)
-    | _ => simp [inFrag] at hfr
+        exact ih p.2 (by omega) (wfKs_mem hwf.2 hp)
+    | array xs =>
+      simp only [wfE] at hwf
+      simp only [Ast.array.sizeOf_spec] at hsz
+      apply all_array
+      intro a ha
+      have := mem_sizeOf_lt ha
+      exact ih a (by omega) (wfEs_mem hwf ha)
+    | compr body gens conds =>
+      simp only [wfE, Bool.and_eq_true, Bool.not_eq_true'] at hwf
+      simp only [Ast.compr.sizeOf_spec] at hsz
+      apply all_compr (ih body (by omega) hwf.1.1.1)
+      · intro p hp
+        have := mem_kw_sizeOf_lt hp
+        exact ih p.2 (by omega) (wfKs_mem hwf.1.1.2 hp)
+      · intro c hc
+        have := mem_sizeOf_lt hc
+        exact ih c (by omega) (wfEs_mem hwf.1.2 hc)
+      · exact hwf.2
+    | assign name e => simp [wfE] at hwf
+    | stmts ss => simp [wfE] at hwf
 
-theorem all_wf {t : Ast} (hwf : wfE t = true) (hfr : inFrag t = true) : All t :=
-  all_of_size (sizeOf t) t (Nat.le_refl _) hwf hfr
+/-- every expression tree the grammar can produce parses back from its text, at every level -/
+theorem all_wf {t : Ast} (hwf : wfE t = true) : All t :=
+  all_of_size (sizeOf t) t (Nat.le_refl _) hwf
 
-/-- statement level of `inFrag`: an assignment of a covered expression, or a covered expression -/
-def inFragS : Ast → Bool
-  | .assign _ e => inFrag e
-  | t => inFrag t
-
-/-- Program trees covered by `C02_roundtrip_partial`. -/
-def Ast.InFragment : Ast → Prop
-  | .stmts ss => ∀ s ∈ ss, inFragS s = true
-  | _ => False
-
-instance : DecidablePred Ast.InFragment := fun t =>
-  match t with
-  | .stmts ss => inferInstanceAs (Decidable (∀ s ∈ ss, inFragS s = true))
-  | .num _ | .str _ | .inst _ | .var _ | .bin .. | .sign .. | .fact _ | .range .. | .interval ..
-  | .cmp1 .. | .cmp2 .. | .call .. | .quantity .. | .convert .. | .array _ | .compr .. | .assign .. =>
-      isFalse (fun h => h)
-
-theorem stmtOK_of_wf (full : Bool) {s : Ast} (hwf : wfS s = true) (hfr : inFragS s = true) :
-    StmtOK full s := by
+theorem stmtOK_of_wf (full : Bool) {s : Ast} (hwf : wfS s = true) : StmtOK full s := by
   intro N rest hN hr
   cases s with
-  | assign name e => exact stmt_assign (all_wf (by simpa [wfS] using hwf) (by simpa [inFragS] using hfr)) full name N rest hN hr
+  | assign name e => exact stmt_assign (all_wf (by simpa [wfS] using hwf)) full name N rest hN hr
   | stmts ss => simp [wfS, wfE] at hwf
   | _ =>
-    exact stmt_expr (all_wf (by simpa [wfS] using hwf) (by simpa [inFragS] using hfr))
-      (by intro n e h; cases h) full N rest hN hr
+    exact stmt_expr (all_wf (by simpa [wfS] using hwf)) (by intro n e h; cases h) full N rest hN hr
 
 theorem roundtrip_toks (full : Bool) (ss : List Ast) (hall : ∀ s ∈ ss, StmtOK full s) :
     parseToks (rNat full (.stmts ss)) = .ok (.stmts ss) := by
